@@ -361,6 +361,10 @@ pub fn run_case<G: AffineRepr>(c: &R1csCase<G>, curve: &str, modulus: &str) -> C
                     line(11, ev2);
                     line(13, s.iter().map(fz).collect());
                     line(14, enc_tr(&vr.log_scalars));
+                    // where the clone challenges (the weight r) were derived: (main operations absorbed at the clone, operations on the clone) ... total
+                    let mut pos: Vec<String> = vr.log_scalars.clone_chal_pos.iter().map(|(a, b)| format!("{}+{}", a, b)).collect();
+                    pos.push(vr.log_scalars.ops.len().to_string());
+                    line(24, pos);
                 }
                 let vcode = result_code(&vr.verdict);
                 out_verdict = vcode;
